@@ -285,6 +285,44 @@ def work(item):
                                        replay={"waits": [list(pre_codes), final, expected, wait]})
                 finally:
                     w2.close()
+        elif kind == "echo":
+            # replies that quote what the client sent: the stock server's answer to the stock client's command is one
+            # the client can read, whatever the command was - and the stream stays in step
+            from vf.rig import Rig
+            for line in payload:
+                rig = Rig(tree={})
+                try:
+                    w3, a3 = rig.world, rig.world.aioftp
+                    out = {}
+
+                    async def main():
+                        c = a3.Client(path_io_factory=a3.MemoryPathIO)
+                        await c.connect("127.0.0.1", 2121)
+                        await c.login()
+                        try:
+                            rc, info = await c.command(line, "xxx")
+                            out["reply"] = str(rc)
+                        except Exception as exc:
+                            out["error"] = type(exc).__name__
+                        try:
+                            rc, info = await c.command("SYST", "xxx")
+                            out["next"] = str(rc)
+                        except Exception as exc:
+                            out["next_error"] = type(exc).__name__
+                        c.close()
+                    try:
+                        w3.run(main())
+                    except Hang:
+                        out["error"] = "hang"
+                    part.evaluations += 1
+                    kk = report.fp(["echo", line[:12], len(line)])
+                    part.states.add(kk)
+                    part.nontrivial.add(kk)
+                    if not out.get("reply", "").isdigit() or out.get("next") != "215":
+                        part.violation({"kind": "reply-to-a-long-command-unreadable-for-the-client", "verb": line[:4]},
+                                       {"command_length": len(line), "got": out}, replay={"echo": [line]})
+                finally:
+                    rig.close()
         elif kind == "long":
             # long reply lines through a *real* client connection (its own StreamReader and limits), 8 KiB .. 60 KiB
             from vf.fakeserver import FakeServer
@@ -364,7 +402,9 @@ def work(item):
                 c = a.Code(code)
                 for m in masks:
                     got = c.matches(m)
-                    want = all((not mc.isdigit()) or mc == cc for mc, cc in zip(m, code))
+                    # digit for digit: a code that ends before the mask does (a reply cut off after "25") cannot agree
+                    # with it; a mask shorter than the code leaves the rest open (documented: Code("123").matches("1"))
+                    want = len(code) >= len(m) and all((not mc.isdigit()) or mc == cc for mc, cc in zip(m, code))
                     part.evaluations += 1
                     if got != want:
                         part.violation({"kind": "code-matches"}, {"code": code, "mask": m, "got": got, "want": want},
@@ -383,6 +423,8 @@ def build_items(tier):
     for i in range(0, 1000, 50):
         items.append(("single", codes[i:i + 50]))
         items.append(("matches", codes[i:i + 50]))
+    # what is left of a code when the stream ends inside it
+    items.append(("matches", ["", "2", "5", "25", "22", "50", "2x", "1", "15"]))
     for code in (CODES12 if tier != "quick" else ["150", "211", "250", "257", "550"]):
         for n in (1, 2, 3) + ((4,) if tier != "quick" else ()):
             for mode in (False, True):
@@ -415,6 +457,9 @@ def build_items(tier):
         items.append(("unencodable", (enc, cases)))
     for n in (1000, 8191, 8192, 8193, 16384, 40000, 60000):
         items.append(("long", [n]))
+    items.append(("echo", [ch * (n // len(ch.encode())) for ch in ("X", "\x01", "'", "\\", "\u00e9") for n in (100, 20000, 60000)]))
+    items.append(("echo", [verb + ch * n for verb in ("TYPE ", "REST ", "PROT ", "EPSV ", "PBSZ ") for ch in ("\x01", "'")
+                           for n in (20000, 60000)]))
     waits = []
     for wait, pres in (("1xx", ["150", "125", "120"]), ("120", ["120"]), (("1xx", "426"), ["150", "426"])):
         for n in range(0, 4):
@@ -463,6 +508,10 @@ def run(tier, seed, t0):
 def replay(path):
     data = json.loads(open(path).read())
     rp = data.get("replay") or {}
+    if "echo" in rp:
+        part = work(("echo", rp["echo"]))
+        print(json.dumps([v["detail"] for v in part.violations], indent=1, default=repr))
+        return 1 if part.violations else 0
     if "unencodable" in rp:
         enc, code, lines, mode = rp["unencodable"]
         part = work(("unencodable", (enc, [(code, lines, mode)])))
